@@ -51,7 +51,7 @@ fn hc(thorough: bool) -> HistCheck<'static> {
 
 pub fn run(ctx: &Ctx, col: &Collector) -> Meta {
     let h = hc(ctx.thorough);
-    run_hist(ctx, col, &h, ctx.n(3000, 40_000));
+    run_hist(ctx, col, &h, ctx.n(3000, 15_000));
     Meta {
         level: "fault_enumeration",
         rule: format!("random histories weighted so that most mutating calls fail, covering every error cause the API can reach: unknown names (before any work), unheld right in rekey (after some rights may already be rotated), born-disabled right in update (after the secrets were moved out), unheld right in key generation, forged key in refresh, stale master key in refresh (valid signature, unknown id), right deleted before refresh; for every call returning Err the master key and the user key must compare equal (PartialEq, hash-order independent) to deserialize(serialize(.)) snapshots taken immediately before; each case is executed {} times with fresh instances because the position of the failing right is decided by hash order. Non-trivial = history containing a late error cause (born-disabled, rekey-unheld, keygen-unheld, stale unknown id) or a forged refresh; distinct by the whole case", if ctx.thorough { 8 } else { 3 }),
